@@ -133,6 +133,18 @@ def node_strategy(draw, depth, allow_unsup=False):
     return ["rep", inner, draw(_quant(bounded_only, big_ok=not has_big(inner))), draw(st.booleans())]
 
 
+def count_reps(node):
+    """number of quantifiers of any kind"""
+    k = node[0]
+    if k == "rep":
+        return 1 + count_reps(node[1])
+    if k == "grp":
+        return count_reps(node[2])
+    if k in ("alt", "seq"):
+        return sum(count_reps(n) for n in node[1])
+    return 0
+
+
 def count_unbounded(node):
     k = node[0]
     if k == "rep":
